@@ -61,6 +61,7 @@ type Hub struct {
 	isShutdown bool
 
 	muxCon        sync.Mutex
+	muxConReg     sync.Mutex // serializes the decision which connection to keep and its registration
 	muxConAttempt sync.Mutex
 	muxReg        sync.Mutex
 	muxMdns       sync.Mutex
